@@ -57,11 +57,11 @@ func init() {
 	register(&Rule{
 		Name:  "LOCK-CONSISTENCY",
 		IR:    "ssa",
-		Props: []string{"C35", "C09"},
+		Props: []string{"C35", "C09", "C36"}, // C36: the builders of package encoding are written by the parallel build stages
 		// non-info obligations on today's tree: encoding 5 (Buffer.WriteAt, ByteArraysBuilder.WriteItem,
 		// StringTableBuilder.Add, Write x2), ingest 5 (watcher x2, MutableWorlds x3), ingest/compact 15
 		Floor:   25,
-		FloorBy: map[string]int{"C09": 5, "C35": 25},
+		FloorBy: map[string]int{"C09": 5, "C35": 25, "C36": 5},
 		Doc: "for every mutex-owning struct of ingest/compact, ingest and encoding: the fields (and their elements) written under the owner's lock are lock-protected, and every other access to them " +
 			"- reads included - in functions that take that lock, or are called from such with the object, holds the lock of the object accessed (shared suffices for reads); sync/atomic accesses are exempt",
 		Run: runLockConsistency,
@@ -260,7 +260,7 @@ func runLockConsistency(c *Ctx) []Obligation {
 		}
 		props := []string{"C35"}
 		if rel == "encoding" {
-			props = []string{"C09", "C35"}
+			props = []string{"C09", "C35", "C36"}
 		}
 		owners := map[*types.TypeName]bool{}
 		sc := p.Types.Scope()
